@@ -226,7 +226,8 @@ def _acts_like(c, specs, hy_logged_out):
             if R.OPS[agg][4]:
                 text = f"def f({', '.join(_names(c.ar))}):\n    a0 {R.OPS[c.op][0]}= ({R.py_expr(agg, names)})\n    return a0\n"
                 c.alts.append((agg, _py_fn(text, c.ev)))
-    return ",".join(agg for agg, f in c.alts if observe(f, specs, c.ev) == hy_logged_out) or "none"
+    blow = R.pow_blowup([R.make(s) for s in specs[1:]])
+    return ",".join(agg for agg, f in c.alts if not (agg == "**" and blow) and observe(f, specs, c.ev) == hy_logged_out) or "none"
 
 
 # ---------------------------------------------------------------- per-shard work
@@ -349,7 +350,13 @@ def _run_val_or_aug(acc, mode, op, ar, pool, first, only=None):
 
 def _run_unpack(acc, op, lo_ar, pool, n, only=None, only_form=None):
     ev = []
-    func = _pyops(op)
+    try:
+        func = _pyops(op)
+    except Exception as e:
+        acc.outcome("compile-error")
+        acc.disagree("compile-failed", {"mode": "unpack", "op": op, "form": "all", "pool": pool, "specs": []}, f"import hy.pyops: {type(e).__name__}: {e}",
+                     sig="compile:pyops-import", op=op, exc=type(e).__name__)
+        return
     fns = {}
     for name, (tmpl, minlen) in UNPACK_FORMS.items():
         text = tmpl.format(op=op)
